@@ -24,12 +24,21 @@ ULONGS = {K.CKA_CLASS, K.CKA_KEY_TYPE, K.CKA_CERTIFICATE_TYPE}
 
 W = {"open": 8, "close": 4, "closeall": 1, "login": 8, "logout": 5, "create": 30, "destroy": 6, "copy": 4, "restart": 1.5, "setlabel": 1, "search": 32}
 
+KEY_KINDS = ("aes", "generic", "des3", "rsa_pub", "rsa_priv", "ec_pub", "ec_priv", "dsa_priv", "dh_priv")
+KEY_CLASSES = (K.CKO_SECRET_KEY, K.CKO_PUBLIC_KEY, K.CKO_PRIVATE_KEY)
+
 class GW(OW):
     def s_create(self, tid=0, pid=1, **kw):
         r = self.r
         kw.setdefault("idv", r.choice([b"", b"\x01", b"ab", b"ab", bytes([r.randrange(256)])]))
         if r.random() < 0.3: kw.setdefault("vlen", r.choice([0, 1, 16]))
         return super().s_create(tid, pid, **kw)
+
+    def tweak_template(self, kind, tmpl):
+        # a third of the keys are created WITHOUT CKA_ID: the attribute then exists with its default, the empty string (stored as such, not encrypted,
+        # also in a private object), and a search for CKA_ID = "" must find them, a search for any other value must not
+        if kind in KEY_KINDS and self.r.random() < 0.33: return [e for e in tmpl if e[0] != K.CKA_ID]
+        return tmpl
 
     def s_search(self, tid=0, pid=1):
         r = self.r
@@ -88,8 +97,11 @@ def _v(cls, msg, **kw):
 def matches(o, tmpl):
     for e in tmpl:
         t = e[0]; v = bytes.fromhex(e[2]) if e[1] == "x" else None
-        if t not in o.attrs: return False
-        ov = o.attrs[t]
+        if t not in o.attrs:
+            # every key object HAS a CKA_ID; one that was created without it holds the default, the empty string
+            if t == K.CKA_ID and int.from_bytes(o.attrs.get(K.CKA_CLASS, b"\xff"), "little") in KEY_CLASSES: ov = b""
+            else: return False
+        else: ov = o.attrs[t]
         if t in BOOLS:
             if len(v) != 1: return False
             if (ov != b"\x00") != (v == b"\x01"): return False
@@ -178,4 +190,4 @@ def cover(plan, r):
 TECHNIQUE = "deterministic simulation: seeded population/template/batch search histories compared with a reference model's answer (multiset of harness tags)"
 CLAIM = ("Seeded exploration: object populations, login states, templates and batch sequences are generated, executed by the real library in the simulator "
          "and every search result (all batches, plus one call after exhaustion) is compared as a multiset with what the reference model says the session may see and the template matches. Evidence, not proof.")
-NOTE = "Trusted: reference model (visibility + typed matching on attributes the harness supplied; attributes with library-chosen defaults are not used in templates). Concurrent searches: C15/C18."
+NOTE = "Trusted: reference model (visibility + typed matching on attributes the harness supplied; of the attributes with library-chosen defaults only CKA_ID of keys (default: empty) is used in templates). Concurrent searches: C15/C18."
